@@ -190,6 +190,9 @@ func (e *Eval) pkgMember(p *ssa.Package, name string) (Val, bool) {
 		if _, ok := structOf(t); ok {
 			return Val{T: x.globalRef(m), Typ: m.Type()}, true
 		}
+		if x.isGuardMutex(m) {
+			return Val{T: x.mutexTerm(m), Typ: t}, true
+		}
 		key := x.globalKey(m)
 		return Val{T: x.get(e.st, key), Typ: t}, true
 	}
